@@ -122,6 +122,18 @@ Section Writer.
     end.
 
   Definition isort (l : list A) : list A := fold_right insert_sorted [] l.
+
+  (** RowBuffer as a sort.Interface (row_buffer.go): Less(i, j) =
+      compare(rows[i], rows[j]) < 0, Swap exchanges two rows; sort.Sort acts on
+      the buffer through the exchanges it decides on *)
+  Definition rb_less (l : list A) (i j : nat) : bool :=
+    match nth_error l i, nth_error l j with
+    | Some a, Some b => (cmp a b <? 0)%Z
+    | _, _ => false
+    end.
+
+  Definition rb_swaps (l : list A) (sws : list (nat * nat)) : list A :=
+    fold_left (fun l p => Sort.Model.swapl l (fst p) (snd p)) sws l.
 End Writer.
 
 Arguments SWWrite {A}.
